@@ -58,6 +58,11 @@ struct vin {
     uint32_t fwgarbage;
     uint32_t out_idx, dep_idx, count0, omask0, dmask0;
     int32_t  dst_rank, prio_new, prio_old, prio_max;
+    /* h_recycle: the state a finished task leaves in the descriptor */
+    uint32_t used_cnt[4];               /* count_bits per output, 0 = output not used by that task (gaps allowed) */
+    uint32_t used_bits[4][2];           /* its destination sets                                               */
+    int32_t  old_root, old_prio, old_maxprio, old_pdev[4];
+    int64_t  lifo_counter;
 } vin;
 #include "verif_vin.h"
 
@@ -207,6 +212,72 @@ void h_forwarded(void)
     for (int a = (FWNP + 31) / 32; a < RB; a++)
         V_ASSERT(fwmask[a] == vin.fw0[a], "C13.remote_dep_reset_forwarded.post.writes_only_the_mask");
     V_CANARY("h_forwarded");
+}
+
+/* ------------------------------------------------------------------------------------------------------ */
+/* Descriptor life cycle.  INVARIANT "the descriptor is clean": for every k < max_dep_count, output[k].count_bits == 0 and
+ * every word of output[k].rank_bits is 0; outgoing_mask == incoming_mask == 0; pending_ack == 0.
+ *   remote_deps_free      any used descriptor (every subset of outputs in use, gaps included)  ->  clean, on the free list
+ *   remote_deps_allocate  (recycling path) hands out the descriptor of the free list, clean, root = -1
+ *   clean is the precondition under which h_gather's / parsec_release_dep_fct's "set |= position, count_bits++" make
+ *   rank_bits EXACTLY the destinations recorded for the new task, which is what h_activate and the lemma start from. */
+#define RC_NP   40           /* two words of rank bits */
+#define RC_MAXD 4            /* every element of output[] of the harness object */
+static parsec_lifo_t rc_lifo;
+static int clean_descriptor(const parsec_remote_deps_t *d)
+{
+    int ok = (d->outgoing_mask == 0) && (d->incoming_mask == 0) && (d->pending_ack == 0);
+    for (int k = 0; k < RC_MAXD; k++) {
+        ok = ok && (d->output[k].count_bits == 0);
+        for (int a = 0; a < (RC_NP + 31) / 32; a++) ok = ok && (d->output[k].rank_bits[a] == 0);
+    }
+    return ok;
+}
+void h_recycle(void)
+{
+    vin_load();
+    setup_common(RC_NP, 0);
+    parsec_remote_dep_context.max_dep_count = RC_MAXD;
+    DEPS->output[3].rank_bits = rbits[3]; DEPS->output[3].parent = DEPS;
+    /* an empty free list, as PARSEC_OBJ_CONSTRUCT(parsec_lifo_t) leaves it (head NULL), any ABA counter */
+    rc_lifo.lifo_head.data.item = NULL; rc_lifo.lifo_head.data.guard.counter = vin.lifo_counter;
+    /* the state left by the task that used the descriptor: the code's own asserts in remote_deps_free as precondition */
+    DEPS->origin = &rc_lifo; DEPS->taskpool = &tp;
+    DEPS->pending_ack = 0; DEPS->incoming_mask = 0; DEPS->outgoing_mask = 0;
+    DEPS->root = vin.old_root; DEPS->priority = vin.old_prio; DEPS->max_priority = vin.old_maxprio;
+    for (int k = 0; k < RC_MAXD; k++) {
+        uint32_t w0 = vin.used_bits[k][0], w1 = vin.used_bits[k][1] & ((1u << (RC_NP - 32)) - 1u);
+        /* count_bits counts the set bits (kept by release_dep_fct / gather): in particular 0 <=> empty set */
+        V_ASSUME(vin.used_cnt[k] == (uint32_t)(spec_popcount(w0) + spec_popcount(w1)));
+        rbits[k][0] = w0; rbits[k][1] = w1;
+        DEPS->output[k].count_bits = vin.used_cnt[k];
+        DEPS->output[k].data.preferred_device = vin.old_pdev[k];
+    }
+
+    remote_deps_free(DEPS);
+
+    V_ASSERT(DEPS->taskpool == NULL, "C13.remote_deps_free.post.taskpool_cleared");
+    V_ASSERT(rc_lifo.lifo_head.data.item == (parsec_list_item_t *)DEPS, "C13.remote_deps_free.post.descriptor_is_on_its_free_list");
+    for (int k = 0; k < RC_MAXD; k++) {
+        V_ASSERT(DEPS->output[k].count_bits == 0, "C13.remote_deps_free.post.every_output_count_bits_is_0");
+        V_ASSERT(rbits[k][0] == 0 && rbits[k][1] == 0, "C13.remote_deps_free.post.every_output_destination_set_is_empty");
+        V_ASSERT(DEPS->output[k].rank_bits == rbits[k], "C13.remote_deps_free.post.rank_bits_pointers_kept");
+    }
+    V_ASSERT(clean_descriptor(DEPS), "C13.remote_deps_free.post.descriptor_is_clean");
+
+    /* whatever else the previous user left behind must not survive the hand-out */
+    parsec_remote_deps_t *d2 = remote_deps_allocate(&rc_lifo);
+
+    V_ASSERT(d2 == DEPS, "C13.remote_deps_allocate.post.recycles_the_freed_descriptor");
+    V_ASSERT(rc_lifo.lifo_head.data.item == NULL, "C13.remote_deps_allocate.post.descriptor_removed_from_the_free_list");
+    V_ASSERT(clean_descriptor(d2), "C13.remote_deps_allocate.post.descriptor_is_clean_all_destination_sets_empty");
+    V_ASSERT(d2->root == -1 && d2->taskpool == NULL && d2->max_priority == (int32_t)0xffffffff,
+             "C13.remote_deps_allocate.post.root_unset_taskpool_unset_priority_reset");
+    V_ASSERT(d2->pending_ack == 0 && d2->outgoing_mask == 0 && d2->incoming_mask == 0,
+             "C13.remote_deps_allocate.post.counters_and_masks_are_0_as_activate_requires_at_the_root");
+    for (int k = 0; k < RC_MAXD; k++)
+        V_ASSERT(d2->output[k].rank_bits == rbits[k] && d2->output[k].parent == d2, "C13.remote_deps_allocate.post.outputs_still_wired");
+    V_CANARY("h_recycle");
 }
 
 /* ------------------------------------------------------------------------------------------------------ */
